@@ -156,6 +156,16 @@ def translate(rec, final_paths):
                 out.append('.other "unlink"')
         elif prim == 'link':
             out.append('.other "link"')
+        elif prim == 'truncate':
+            if path == temp:
+                out.append('.truncate')
+                w_total, direct = 0, 0
+            else:
+                out.append('.other "truncate-unexpected"')
+        elif prim == 'failed':
+            out.append('.failed')
+        elif prim == 'raised':
+            out.append('.raised')
         # exists / stat / makedirs / listdir / close(fd) / utime on non-lock paths: no effect on the written data
     return out
 
@@ -194,6 +204,47 @@ def record_resave(scratch, tag, probe=None):
         undo()
     rec.finish()
     return rec, store, {os.path.abspath(store._packfile())}
+
+
+def record_failing(value, compress, scratch, tag, k):
+    """the write of `value` with its k-th data primitive (write / flush / fsync on the temporary file) failing: recorded events with a `failed` mark in place of the
+    primitive that failed and a final `raised` mark if dump() handed the error on. Returns (rec, store, final, fired, raised)"""
+    import errno
+    from jug.backends.file_store import file_store
+    jd = os.path.join(scratch, 'd-' + tag)
+    store = file_store(jd, compress_numpy=compress)
+    store.dump('other-key-value', KEY2)
+    store = file_store(jd, compress_numpy=compress)
+    rec = Recorder(jd, None)
+    st = {'n': 0, 'fired': None}
+
+    def hook(prim, path, *extra):
+        if prim in ('write', 'flush', 'fsync') and isinstance(path, str) and 'tempfiles' in path and not os.path.isdir(path) and not (prim == 'write' and extra and extra[0] == 0):
+            st['n'] += 1
+            if st['n'] == k:
+                st['fired'] = prim
+                rec('failed', path)
+                raise OSError(errno.ENOSPC if prim != 'fsync' else errno.EIO, 'injected failure of %s' % prim)
+        rec(prim, path, *extra)
+    undo = fsgate.install(hook, wrap_files=True, plain_proxy=True)
+    raised = False
+    try:
+        store.dump(value, KEY)
+    except BaseException:
+        raised = True
+    finally:
+        undo()
+    if raised:
+        rec('raised', '')
+    rec.finish()
+    final = {os.path.abspath(store._getfname(KEY)), os.path.abspath(store._packfile())}
+    return rec, store, final, st['fired'], raised
+
+
+def failing_cases():
+    import numpy as np
+    return [('pickle-small', {'a': [1, 2, 3]}, False), ('pickle-large', list(range(30000)), False), ('array-raw', np.arange(3000.0), False), ('array-compressed', np.arange(3000.0), True),
+            ('array-object', np.array([{'k': 1}, 'x'], dtype=object), False)]
 
 
 def split_sequences(ops):
@@ -239,6 +290,20 @@ def extract(scratch):
     txt += ',\n'.join('  ("%s", [%s])' % (n, ', '.join(o)) for n, o in rows)
     txt += ']\n'
     txt += 'def packedOverwritePublishesFirst : Bool := %s\n' % ('true' if publishes_first else 'false')
+    # the same writes with their k-th data primitive failing, for every k
+    frows = []
+    for name, value, compress in failing_cases():
+        k = 1
+        while k < 16:
+            rec, store, final, fired, raised = record_failing(value, compress, scratch, 'fail-%s-%d' % (name, k), k)
+            if fired is None:
+                break
+            frows.append(('%s-fails-at-%d-%s' % (name, k, fired), translate(rec, final)))
+            k += 1
+    txt += '/-- the same writes with their k-th data primitive (write / flush / fsync on the temporary file) reporting an error, for every k: what the real dump() does then -/\n'
+    txt += 'def failingSequences : List (String × List FOp) := [\n'
+    txt += ',\n'.join('  ("%s", [%s])' % (n, ', '.join(o)) for n, o in frows)
+    txt += ']\n'
     txt += '/-- the commands redis_store.dump sends that change the result key, per case (overwrite of an existing key) -/\n'
     txt += 'def redisDumpCommands : List (String × List String) := [\n'
     txt += ',\n'.join('  ("%s", [%s])' % (n, ', '.join('"%s"' % c for c in cmds)) for n, cmds in redis_commands())
